@@ -110,6 +110,12 @@ def run(tier, rep, ev):
     bases = []
     for i in range(nlay):
         lay = layouts.gen_layout(R)
+        for f in lay.get("files", []):
+            # values other writers store and py7zr's own writer never does: attribute word 0, FILETIME 0 - DEFINED, and to be kept
+            if f.get("kind") in ("file", "empty") and R.random() < 0.15:
+                f["attrib"] = 0
+            if R.random() < 0.1:
+                f["mtime"] = 0
         if lay.get("password") is not None or lay.get("header") == "aes":
             lay["password"] = "secret"
         try:
